@@ -7,3 +7,6 @@ func verifPoint(name string, keys ...string) {}
 
 // verifPortName is only evaluated for the arguments of verifPoint; without the tag it returns the empty string.
 func verifPortName(proc WorkflowProcess, name string) string { return "" }
+
+// verifTaskKeys is only evaluated for the arguments of verifPoint; without the tag it returns nothing.
+func verifTaskKeys(t *Task) []string { return nil }
